@@ -109,6 +109,10 @@ func (c *Cluster) killAt(n *SimNode, kind, phase string, torn float64) {
 			}
 			if err := os.Truncate(filepath.Join(img, name), cut); err == nil {
 				c.stats.fault("torn-tail")
+				if n.preVlog == n.vlogAtOpen {
+					n.wipeExpected = true
+					c.stats.probe("torn-first-write-after-clean-reopen")
+				}
 			}
 		}
 	}
@@ -207,7 +211,11 @@ func (c *Cluster) restartFromDisk(n *SimNode) {
 	n.armCrashAt = 0
 	c.newSegment(n, -1)
 	if err := c.startNode(n, true); err != nil {
-		c.violate("C11", "restart", "bootstrap-error", "node %d: restart with bootstrap failed: %v", n.idx, err)
+		key := "bootstrap-error"
+		if n.wipeExpected {
+			key = "torn-first-write-after-clean-reopen-wipes-value-log"
+		}
+		c.violate("C11", "restart", key, "node %d: restart with bootstrap failed: %v", n.idx, err)
 		n.crashed = true
 		n.dead = true
 		n.node = nil
@@ -215,7 +223,27 @@ func (c *Cluster) restartFromDisk(n *SimNode) {
 	}
 	c.stats.probe("restart-bootstrap")
 	delete(c.dag.harvest, n.idx)
+	nviol := len(c.violations)
 	c.checkRecovery(n, n, prevEpoch, n.knownAtCrash, nil)
+	if n.wipeExpected {
+		for _, v := range c.violations[nviol:] {
+			if v.Property == "C11" {
+				v.Key = "torn-first-write-after-clean-reopen-wipes-value-log"
+			}
+		}
+		// the node has lost its history: it is no longer a full-history node
+		n.wipeExpected = false
+		n.wiped = true
+		// it would now re-create events at heights it already used; take it out
+		func() {
+			defer func() { recover() }()
+			n.node.Shutdown()
+		}()
+		delete(c.byPath, n.dbPath)
+		n.dead = true
+		n.crashed = true
+		n.node = nil
+	}
 }
 
 // opCleanRestart: Shutdown(), then reopen with bootstrap.
@@ -334,6 +362,7 @@ func (c *Cluster) shadowBootstrap(victim *SimNode, torn float64, phase string) {
 		c.inShadow = false
 	}()
 	c.shadowSeq++
+	shadowWipe := false
 	img := filepath.Join(c.workdir, fmt.Sprintf("shadow-%d", c.shadowSeq))
 	if err := copyDir(victim.dbPath, img); err != nil {
 		panic(harnessError{"copy db: " + err.Error()})
@@ -348,9 +377,23 @@ func (c *Cluster) shadowBootstrap(victim *SimNode, torn float64, phase string) {
 			}
 			if err := os.Truncate(filepath.Join(img, name), cut); err == nil {
 				c.stats.fault("torn-tail")
+				if victim.preVlog == victim.vlogAtOpen {
+					shadowWipe = true
+					c.stats.probe("torn-first-write-after-clean-reopen")
+				}
 			}
 		}
 	}
+	nviol := len(c.violations)
+	defer func() {
+		if shadowWipe {
+			for _, v := range c.violations[nviol:] {
+				if v.Property == "C11" {
+					v.Key = "torn-first-write-after-clean-reopen-wipes-value-log"
+				}
+			}
+		}
+	}()
 	sh := &SimNode{
 		idx: victim.idx, key: victim.key, pubHex: victim.pubHex, pubB: victim.pubB, id: victim.id,
 		addr: victim.addr + "-shadow", moniker: victim.moniker, c: c, storeKind: "badger", dbPath: img,
